@@ -15,7 +15,7 @@ def dense_samples(col, times):
 class C17(Check):
     PID = 'C17'
     RULE = ('every operator x the four monitor kinds (with pastify for bounded-future formulas online) x degenerate data shapes: one-sample traces, a declared '
-            'and supplied but unused variable, a declared but never supplied unused variable, inputs listed in shuffled order, object-typed variables read and written through fields with several update() calls; then seeded random formulas of '
+            'and supplied but unused variable, a declared but never supplied unused variable, inputs listed in shuffled order, object-typed variables read and written through fields (also two fields of one object) with several update() calls, bounds of 1e19 ... 1e400 (a value or an RTAMTException); then seeded random formulas of '
             'the full grammar; 30% of the cases with one of the four IA-STL semantics and a random input/output assignment; expected outcome class from the model (Support.v): Ok for supported constructs, RTAMTException (at parse/pastify or at the '
             'first evaluation) for unsupported ones, never another exception and never a value for an unsupported construct; '
             'non-trivial = formula with a temporal operator; distinct by (formula, monitor kind, data shape)')
@@ -80,6 +80,16 @@ class C17(Check):
             for kind in KINDS:
                 n = rng.choice([3, 4, 6])
                 cases.append({'f': f, 'n': n, 'nv': 2, 'cols': fml.gen_trace(rng, 3, n), 'times': list(range(n)), 'shape': 'object-fields', 'kind': kind, 'perm': 0.5})
+        # the result is written to one field of the object whose other field the formula reads (xa.other = ... xa.value ...)
+        for f in [P, ('oncet', 0, 1, P), ('hist', P), ('alwt', 0, 1, P)]:
+            for kind in KINDS:
+                n = rng.choice([3, 4])
+                cases.append({'f': f, 'n': n, 'nv': 1, 'cols': fml.gen_trace(rng, 2, n), 'times': list(range(n)), 'shape': 'object-fields-same', 'kind': kind, 'perm': 0.5})
+        # bounds far beyond anything a monitor can hold (2**63 sampling periods, the largest float): a value or an RTAMTException, never another exception
+        for txt in ['once[0,1e19](xa >= 1)', 'historically[0,1e30](xa >= 1)', '(xa >= 1) since[0,1e19] (xa <= 3)', 'once[1e25,1e25](xa >= 1)', 'once[0,1e400](xa >= 1)', 'always[0,1e19](xa >= 1)',
+                    'eventually[0,1e400](xa >= 1)', 'once[0,1e300](xa >= 1)']:
+            for kind in KINDS:
+                cases.append({'f': P, 'n': 3, 'nv': 1, 'cols': fml.gen_trace(rng, 2, 3), 'times': [0, 1, 2], 'shape': 'huge-bound', 'kind': kind, 'perm': 0.5, 'text': txt})
         return cases
 
     def normalize(self, c):
@@ -119,10 +129,14 @@ class C17(Check):
         past = fml.has_future(f) and kind.endswith('online') and not any(s[0] in fml.UNB_FUTURE for s in fml.subformulas(f))
         if past:
             base['pastify'] = True
-        if shape == 'object-fields':
+        if shape == 'huge-bound':
+            base['spec'] = 'out = ' + c['text']
+            base['pastify'] = kind.endswith('online') and ('always' in c['text'] or 'eventually' in c['text'])
+        if shape in ('object-fields', 'object-fields-same'):
             import re
-            base['spec'] = 'out.value = ' + re.sub(r'\b(x[a-e])\b', r'\1.value', fml.to_text(f))
-            base['objvars'] = vars_ + ['out']
+            head = 'out.value' if shape == 'object-fields' else 'xa.other'
+            base['spec'] = head + ' = ' + re.sub(r'\b(x[a-e])\b', r'\1.value', fml.to_text(f))
+            base['objvars'] = vars_ + (['out'] if shape == 'object-fields' else [])
             if kind == 'dense-online':
                 # one sample per update(): the monitor is called several times
                 base['calls'] = [['update', [[nm(i), dense_samples(col(i), c['times'])[k:k + 1]] for i in order]] for k in range(n)]
@@ -153,6 +167,11 @@ class C17(Check):
         stat = [i['setup']] + i['calls']
         det = {'monitor': c['kind'], 'shape': c['shape'], 'pastified': past, 'supported_by_model': sup}
         first_bad = next((s for s in stat if s['status'] != 'ok'), None)
+        if c['shape'] == 'huge-bound':
+            bad = next((s for s in stat if s['status'] not in ('ok', 'rtamt')), None)
+            if bad is not None:
+                return 'violation', dict(det, spec='out = ' + c['text'], expected='a value or an RTAMTException', observed=bad)
+            return 'ok', None
         if sup:
             if first_bad is not None:
                 return 'violation', dict(det, expected='every call returns normally', observed=first_bad)
@@ -180,7 +199,7 @@ class C17(Check):
         return [c['kind'], c['shape'], c.get('sem', 'standard')] + sorted(fml.ops(c['f']))
 
     def key(self, c):
-        return json.dumps([fml.to_sx(c['f']), c['kind'], c['shape'], c['n']])
+        return json.dumps([fml.to_sx(c['f']), c['kind'], c['shape'], c['n'], c.get('text')])
 
     def describe(self, c):
         return {'spec': 'out = ' + fml.to_text(c['f']), 'monitor': c['kind'], 'shape': c['shape'], 'n': c['n']}
